@@ -188,7 +188,8 @@ CLAIMS = {
          "right side of hi; always inside the axis), the size of a basic-index result; on the Sched model: "
          "every access -- read, write, or one for which NumPy raises -- outside contexts leaves no map, "
          "handle or user behind (C12_discipline), a write is returned by the next read and changes nothing "
-         "else (C12_write_through), reads are independent of open contexts. NOT proved (oracle / runtime): "
+         "else (C12_write_through), reads are independent of open contexts, also after the length changed "
+         "inside a context (C12_resize_in_context). NOT proved (oracle / runtime): "
          "advanced indexing, broadcasting and NumPy's error classes; survival of returned arrays after "
          "unmapping. Tie: Index.basic_index vs NumPy on arange arrays, bounded-exhaustive over a per-axis "
          "index alphabet (in coqc); a[idx] / a[idx]=v vs NumPy on reference copies incl. advanced indices, "
@@ -216,7 +217,10 @@ CLAIMS = {
          "Coq proof over source-translated functions (tie T) + in-Coq differential evaluation (tie K)",
          "6.C14"),
  'C19': ("kernel-checked over Sched.v (the user-counting protocol of Array._open_array, iterchunks "
-         "generators with frames from the GENERATED iterindices, open_array contexts, element reads/writes): "
+         "generators with frames from the GENERATED iterindices computed at the first next(), open_array "
+         "contexts, element reads/writes, failing accesses, failed opens, and length changes (append / truncate) "
+         "while the array is open, which renew the shared map and leave the old one to the generators still "
+         "reading from it): "
          "for ANY action sequence of any length with any number of generators and contexts the protocol "
          "invariant holds and no step touches a closed memory map (C19_safe, by induction over the "
          "schedule), a chunk is read through the shared map at the moment it is returned "
